@@ -55,6 +55,13 @@ int32_t pkcs1Pad(const unsigned char *in, psSize_t inlen,
     unsigned char *c;
     uint32_t randomLen;
 
+    if (outlen < 11 || inlen > outlen - 11)
+    {
+        /* No room for 00 || BT || PS (8 octets at least) || 00 || D: the
+           subtraction below would wrap around. */
+        psTraceCrypto("pkcs1Pad failure: data too long\n");
+        return PS_LIMIT_FAIL;
+    }
     randomLen = outlen - 3 - inlen;
     if (randomLen < 8)
     {
